@@ -169,6 +169,35 @@ def run(ctx):
     from .c07 import counter_collection_rule
     counter_collection_rule(ctx, "C16.R6", ("noodles_cram::r#async::io::writer::Writer::<W>::flush",), 1)
 
+    ctx.rule("C16.R7", "split transfers: the async CRAM CrcReader digests the whole filled part of the ReadBuf it is handed, so no accumulating "
+                       "read future (read_exact / read_buf / read_to_end) is polled on it (the same rule as C12.R9, decided here for the "
+                       "'however the source splits transfers' clause)")
+    from . import c12 as _c12
+    _c12.digesting_wrapper_rule(ctx, "C16.R7", 1)
+
+    ctx.rule("C16.R8", "twin scanners agree on what the number they return counts: elements appended to the destination (Vec::len difference, "
+                       "read_to_end) or bytes taken from the stream (a sum of consume amounts, read_until); only pairs classified on both sides "
+                       "are compared (genuine defect F49: the async FASTA read_sequence returned consumed bytes, the sync one bases)")
+    from .. import a5 as _a5
+    n8 = 0
+    for k, f in sorted(fb.fns.items()):
+        if "r#async::" in k and k.endswith("::{closure#0}") and re.search(r"^core::result::Result<usize", f.locals[0] or ""):
+            tw = k.replace("r#async::", "")[:-len("::{closure#0}")]
+            if tw not in fb.fns:
+                continue
+            a, s_ = _a5.count_meaning(fb, f), _a5.count_meaning(fb, fb.fns[tw])
+            if a is None or s_ is None:
+                continue
+            n8 += 1
+            ctx.saw_fn(f)
+            if a == s_:
+                ctx.ok("C16.R8", k, "both twins return a %s count" % a, f.loc())
+            else:
+                ctx.violation("C16.R8", "C16.R8/count-meaning/" + f.root,
+                              "%s returns a %s count, its sync twin %s a %s count: the same call on the same input returns different numbers "
+                              "(line terminators are consumed but not appended)" % (f.root, a, tw, s_), f.loc())
+    ctx.floor("C16.R8", "twin scanner pairs whose returned count is classified on both sides", n8, 1)
+
     ctx.rule("C16.R5", "poll_seek state machine of the async BGZF reader: from its resting state every way to Ready(Ok) passes the arm that "
                        "seeks the inner reader (the sync seek has no memory of earlier requests)")
     state_machine_action_rule(ctx, "C16.R5", "noodles_bgzf::r#async::io::reader::Reader::<R>::poll_seek", "noodles_bgzf::r#async::io::reader::SeekState",
